@@ -304,12 +304,20 @@ PROPS = {
         level="other",
         bounded=_mod("c18"),
         trusted=TB,
-        assumed=["symbolize_bitvec denotes the world"],
-        lemmas=["SeenRank.step"],
+        assumed=[
+            "symbolize_bitvec denotes the world",
+            "PJ: the bit deletion in marginalize (a string comprehension) is a function of world, signature and marginalization (which bits it deletes: bounded, module c18)",
+            "CTOR: PreOCF.init_custom stores the ranks and a non-empty signature unchanged in the new object (three straight-line constructor hops; bounded, module c18)",
+            "abstract rank_world of the base class returns RKf(world), or raises (compute_conditionalization)",
+        ],
+        lemmas=["SeenRank.step", "MargAtt.step", "MargLB.step", "MargAny.step"],
         explanation="Engine P proves formula_rank (least rank of the models, None if none), conditional_acceptance, is_ocf, "
-        "world_satisfies_conditionalization and both directions of the TPO conversion (tpo2ranks, ranks2tpo) from the real "
-        "source; marginalisation and conditionalisation (string manipulation of world names) are compared with definitions on all small "
-        "rankings, as is the TPO conversion end to end (bounded).",
+        "world_satisfies_conditionalization, the conditionalisations (filter_worlds_by_conditionalization, compute_conditionalization, "
+        "conditionalize_existing_ranks: exactly the worlds satisfying the formula, with their ranks), both directions of the TPO "
+        "conversion (tpo2ranks, ranks2tpo) and the structure of marginalize (every projected world gets the least rank of its ranked "
+        "extensions; the new signature is the subsequence of the remaining atoms) from the real source. Which bit positions marginalize "
+        "deletes (string manipulation, abstracted as a function PJ), and all operations end to end on all small rankings, are "
+        "compared with the definitions by the bounded module.",
     ),
     "C19": dict(
         level="other",
